@@ -511,7 +511,7 @@ def _guards(run, guards, call):
     for nm, g in guards:
         run.checks += 1
         run.nontrivial = True
-        bad = present.changed(g)
+        bad = present.changed(g, run)
         if bad:
             run.fail("own.wcs", {"call": call, "arg": nm, "present": g["kind"]},
                      "WCS.%s modified its %s argument (%s): %s" % (call, nm, g["kind"], bad))
